@@ -263,6 +263,29 @@ func (vc *VC) execFor(st *State, x *ast.ForStmt, label string) []*State {
 		}
 		return res
 	}
+	if vc.unroll > 0 {
+		// counterexample search: exact semantics for up to vc.unroll iterations (deeper executions are dropped)
+		return vc.unrollLoop(st, label, func(s *State) string {
+			if x.Cond == nil {
+				return "true"
+			}
+			return vc.evalExpr(s, x.Cond).S
+		}, func(s *State) []*State {
+			outs := vc.execBlock([]*State{s}, x.Body.List)
+			tg := vc.targets[len(vc.targets)-1]
+			outs = append(outs, tg.conts...)
+			tg.conts = nil
+			var res []*State
+			for _, o := range outs {
+				if x.Post != nil {
+					res = append(res, vc.execStmt(o, x.Post)...)
+				} else {
+					res = append(res, o)
+				}
+			}
+			return res
+		})
+	}
 	ms := vc.dryRun(st, label, iter)
 	vc.checkInvs(st, ls, "inv-entry", entry, n, vc.pos(x))
 	head := vc.havocFor(st, ms, ls, entry)
@@ -473,6 +496,9 @@ func (vc *VC) execRange(st *State, x *ast.RangeStmt, label string) []*State {
 		}
 		return outs
 	}
+	if vc.unroll > 0 {
+		return vc.unrollLoop(st, label, pre, iter)
+	}
 	ms := vc.dryRun(st, label, func(s *State) []*State { s.assume(pre(s)); return iter(s) })
 	vc.checkInvs(st, ls, "inv-entry", entry, n, vc.pos(x))
 	head := vc.havocFor(st, ms, ls, entry)
@@ -534,4 +560,34 @@ func ifaceKeyedGhost(h string) bool {
 		name = name[:i]
 	}
 	return ifaceKeyed[name]
+}
+
+// unrollLoop executes a loop exactly for up to vc.unroll iterations.
+func (vc *VC) unrollLoop(st *State, label string, cond func(s *State) string, iter func(s *State) []*State) []*State {
+	tg := &target{label: label, isLoop: true}
+	vc.targets = append(vc.targets, tg)
+	sts := []*State{st}
+	var exits []*State
+	for k := 0; k <= vc.unroll; k++ {
+		var next []*State
+		for _, s := range sts {
+			ex := s.clone()
+			c := cond(ex)
+			ex.assume(not(c))
+			exits = append(exits, ex)
+			if k == vc.unroll {
+				continue // unwinding bound reached: deeper executions are not explored
+			}
+			b := s
+			b.assume(cond(b))
+			next = append(next, iter(b)...)
+		}
+		sts = next
+		if len(sts)+len(exits) > maxPaths {
+			break
+		}
+	}
+	vc.targets = vc.targets[:len(vc.targets)-1]
+	exits = append(exits, tg.breaks...)
+	return exits
 }
